@@ -826,7 +826,7 @@ pub fn run_graph(line: &str) -> Result<String, String> {
 				w.t("reparse-err");
 			}
 			Ok(g2) => {
-				w.t("reparse-ok");
+				w.t("reparse-ok").schema(&dump_nodes(&g2));
 				match serde_avro_fast::schema::verif::canonical_form(&g2) {
 					Ok(p2) => w.t("pcf2").xs(&p2),
 					Err(_) => w.t("pcf2-err"),
